@@ -14,6 +14,20 @@ deserialize_value at most |bs|/2+1 times and stream.read at most twice per call,
 stream for more than the 1 MiB cap, gets back at most |bs| bytes, and returns only base types and
 instances of registered classes; decoding the same shape with 4x the elements costs at most ~7x the time.  Wall time and tracemalloc peak per input are MEASURED against
 c*|bs| and reported (notes); they are not proved.
+Cost by operation count (serlib.count_ops: number of function-call events under sys.setprofile — every Python
+function entered, every C function called from Python code, including __eq__/__hash__ entered from inside a
+dict/set insertion; deterministic, independent of machine load): at most OPS_PER_BYTE*|bs| + OPS_CONST for EVERY
+input of the main loop, and for containers (seq, set, map keys, map values, a set inside an object field) of every
+element kind (scalars of each width, floats, str, bytes, class instances with different / partly equal / equal /
+default / nested fields, enum members with legal, arbitrary, str, enum and object values, nested containers) the count
+at 4n elements is at most OPS_SCALE times the count at n, and the bound holds at the cap of 16384 elements
+(container_cost).  The same shapes with few elements go through the model comparison (family `container`).
+Hostile persistent streams (persist_hostile): Serializable.load_persistant on valid records written under other id
+assignments, their truncations and bit flips, crafted tables (count / id / name of every value kind, duplicates,
+one id for every class, 16384 entries) and random bytes — terminates, documented exception kinds, closed result,
+operation bound.  Process-level state clause: after every input of every family (deserialize_value, load_persistant,
+the two handshake receivers) the serializer's process-wide tables and class attributes are what they were
+(serlib.table_fingerprint per input, serlib.process_state per phase).
 """
 import io, os, sys, time, struct, signal, tracemalloc
 from harness import lib
@@ -28,7 +42,11 @@ RULE = ("inputs = random byte strings (type-id biased) + EVERY truncation and EV
         "values -2^63..2^63-1 around 0, the caps 2^14 and 2^20, and the width limits) + nesting of seq/map/set/enum/object to "
         "depth 1..100, 150, 400, 2000, 3000 with the frames pinned just below / at / above what the depth needs + unknown type "
         "ids (all 65536 in the thorough tier); non-trivial = the input is not a valid encoding (error outcome, or decodes with "
-        "bytes left over or to a different value than the corpus item)")
+        "bytes left over or to a different value than the corpus item); containers seq/set/map-key/map-value/set-in-object-field x 33 "
+        "element kinds (scalars, floats, str, bytes, class instances with different/equal/default/nested fields, enum members with "
+        "legal/arbitrary/str/enum/object values, nested containers) at 2 and 24 elements against the model and at 64/256/16384 elements "
+        "by python-level operation count (and wall clock for six of them); hostile persistent streams for load_persistant (records "
+        "written under other id assignments, every 3rd truncation, sampled bit flips, crafted count/id/name tables, random bytes)")
 ASSUMPTIONS = [
     "io.BytesIO.read(n) returns min(n, left) bytes (all of them for n < 0) and allocates only what it returns (CPython)",
     "dict/set insertion is one step per element: CPython hashing is not modelled (str/bytes hashes are randomised per process; "
@@ -47,6 +65,8 @@ ASSUMPTIONS = [
     "(excluded_enum_hash_collision), checked to agree up to that point, and excluded",
 ]
 TRUSTED = [
+    "operation count = sys.setprofile call events: work done inside one C call without calling anything (probing inside a dict/set "
+    "with colliding hashes, memcpy of a long bytes value) is invisible to it; that part is covered by the wall-clock measurements only",
     "CPython struct/io.BytesIO/dict/set, cryptography's DER parser: modelled or recorded, compared differentially, not verified",
     "wall time and tracemalloc peak are measurements over the generated inputs, not theorems",
 ]
@@ -58,6 +78,10 @@ HS_WALL_LIMIT = 3.0        # seconds per handshake-receiver input (a datagram-si
 ALLOC_PER_BYTE = 1024      # tracemalloc peak allowed per input byte (a nesting level costs ~2 input bytes and one Python frame)
 ALLOC_CONST = 65536        # + this constant (measured on the unchanged tree: peak - 1024*|bs| <= ~1.1 KB over every sampled input)
 WALL_LIMIT = 8.0          # seconds per input before the watchdog calls it a hang
+OPS_PER_BYTE = 24         # python-level operations (function-call events, see serlib.count_ops) allowed per input byte ...
+OPS_CONST = 160           # ... plus this constant (measured on the unchanged tree: <= ~7 per byte + ~40, see the MEASURED note)
+OPS_SCALE = 4.5           # operations(4n elements) <= OPS_SCALE * operations(n elements) + OPS_CONST
+HS_OPS_CONST = 400        # constant part for a handshake receiver (key parsing, ECDH, logging: measured far below, see the MEASURED note)
 
 
 class Hang(BaseException):
@@ -299,6 +323,91 @@ def flips(b, positions=None):
             yield b[:i] + bytes([b[i] ^ (1 << k)]) + b[i + 1:]
 
 
+# ------------------------------------------------------------------ hostile containers of every element kind
+def element_kinds():
+    """name -> (i -> encoding of the i-th element, hashable?).  Elements are pairwise different values unless the name says
+    otherwise; class instances with pairwise different field values, with equal field values, enum members holding
+    legal, illegal (the decoder accepts any value), equal and nested values; nested containers."""
+    H = struct.pack
+
+    def i16(i):
+        return H(">Hh", 4, i % 32768)
+
+    def sv(i):
+        return b"\x00\x0d\x00\x03\x05" + b"%05d" % i
+
+    def obj(cls, *fields):
+        return H(">H", cls.type_id) + H(">Hb", 3, len(fields)) + b"".join(fields)
+
+    def enum(cls, val):
+        return H(">H", cls.type_id) + val
+    P, C, N = SL.VfPoint, SL.VfColor, SL.VfName
+    return {
+        "none": (lambda i: b"\x00\x0f", True),
+        "bool": (lambda i: H(">H?", 1, i & 1), True),
+        "int8": (lambda i: H(">Hb", 3, i % 128), True),
+        "int16": (i16, True),
+        "int64": (lambda i: H(">Hq", 6, (i << 40) + 1), True),
+        "int64-neg": (lambda i: H(">Hq", 6, -(i << 33) - 2), True),
+        "uint32": (lambda i: H(">HL", 10, i * 65537), True),
+        "float32": (lambda i: H(">Hf", 11, i + 0.5), True),
+        "float64": (lambda i: H(">Hd", 12, i * 1.0000001 + 0.25), True),
+        "str": (sv, True),
+        "str-empty": (lambda i: b"\x00\x0d\x00\x03\x00", True),
+        "bytes": (lambda i: b"\x00\x0e\x00\x03\x03" + H(">L", i)[1:], True),
+        "obj-point": (lambda i: obj(P, i16(i), i16(-i)), True),
+        "obj-point-one-field-differs": (lambda i: obj(P, i16(7), i16(i)), True),
+        "obj-challenge": (lambda i: obj(SL.CHAL, i16(i)), True),
+        "obj-low": (lambda i: obj(SL.VfLow, i16(i)), True),
+        "obj-high-str": (lambda i: obj(SL.VfHigh, sv(i)), True),
+        "obj-high-list": (lambda i: obj(SL.VfHigh, b"\x00\x10\x00\x03\x01" + i16(i)), True),
+        "obj-mix": (lambda i: obj(SL.VfMix, H(">H?", 1, i & 1), i16(i), H(">Hf", 11, i + 0.5), sv(i)), True),
+        "obj-equal-fields": (lambda i: obj(P, i16(3), i16(4)), True),
+        "obj-defaults": (lambda i: obj(P), True),
+        "obj-empty": (lambda i: obj(SL.VfEmpty), True),
+        "obj-nested": (lambda i: obj(SL.VfHigh, obj(P, i16(i), i16(i))), True),
+        "enum-member": (lambda i: enum(C, H(">Hb", 3, 1 + i % 3)), True),
+        "enum-any-int": (lambda i: enum(C, i16(i)), True),
+        "enum-str": (lambda i: enum(N, sv(i)), True),
+        "enum-of-enum": (lambda i: enum(C, enum(N, i16(i))), True),
+        "enum-of-obj": (lambda i: enum(C, obj(P, i16(i), i16(i))), True),
+        "seq": (lambda i: b"\x00\x10\x00\x03\x01" + i16(i), False),
+        "seq-empty": (lambda i: b"\x00\x10\x00\x03\x00", False),
+        "set": (lambda i: b"\x00\x12\x00\x03\x01" + i16(i), False),
+        "map": (lambda i: b"\x00\x11\x00\x03\x01" + i16(i) + b"\x00\x0f", False),
+        "seq-of-obj": (lambda i: b"\x00\x10\x00\x03\x02" + obj(P, i16(i), i16(i)) + enum(C, i16(i)), False),
+    }
+
+
+def container_makers():
+    """name -> (element encoder, n) -> bytes"""
+    def hdr(tag, n):
+        return struct.pack(">H", tag) + struct.pack(">Hl", 5, n)
+
+    def key(i):
+        return struct.pack(">Hl", 5, i * 65537)
+    return {
+        "seq": lambda e, n: hdr(16, n) + b"".join(e(i) for i in range(n)),
+        "set": lambda e, n: hdr(18, n) + b"".join(e(i) for i in range(n)),
+        "map-key": lambda e, n: hdr(17, n) + b"".join(e(i) + b"\x00\x0f" for i in range(n)),
+        "map-value": lambda e, n: hdr(17, n) + b"".join(key(i) + e(i) for i in range(n)),
+        "obj-field-set": lambda e, n: struct.pack(">H", SL.VfHigh.type_id) + b"\x00\x03\x01" + hdr(18, n) + b"".join(e(i) for i in range(n)),
+    }
+
+
+def hostile_containers():
+    """[(name, hashable, n -> bytes)] : every container kind x every element kind"""
+    out = []
+    for cn, mk in container_makers().items():
+        for en, (e, hashable) in element_kinds().items():
+            out.append(("%s/%s" % (cn, en), hashable, (lambda n, mk=mk, e=e: mk(e, n))))
+    return out
+
+
+def ops_of(data, reg, limit=None):
+    return SL.count_ops(lambda: S.deserialize_value(io.BytesIO(data), registry=reg), limit)
+
+
 # ------------------------------------------------------------------ the run
 def run(run):
     old_limit = sys.getrecursionlimit()
@@ -322,6 +431,12 @@ def _run(run):
 
     cases = []      # (family, frames, bytes)
     FR = SL.BIG_FRAMES
+    t_last = [time.time()]
+
+    def lap(name):
+        now = time.time()
+        run.notes.append("phase %s: %.1f s" % (name, now - t_last[0]))
+        t_last[0] = now
 
     # ---- corpus of valid encodings
     corpus = []
@@ -411,9 +526,19 @@ def _run(run):
     if T:
         run.exhaustive.append("all 65536 type ids, at top level and nested in a sequence")
 
+    # ---- containers of every element kind (scalars, strings, bytes, class instances, enum members, containers), few elements:
+    # outcome, value and read log are compared with the model here; their COST at hostile sizes is measured further down
+    for name, hashable, mk in hostile_containers():
+        for n in ((0, 1, 2, 3, 24) if T else (2, 24)):
+            cases.append(("container", FR, mk(n)))
+            if T:
+                cases.append(("container", FR, mk(n)[:-1]))
+
     # ---- implementation: frame-exact run with the logging stream, then the call count
     impl, model_args, meta = [], [], []
-    maxima = {"time_per_byte": 0.0, "time_abs": 0.0}
+    maxima = {"time_per_byte": 0.0, "time_abs": 0.0, "ops_per_byte": (0.0, None), "ops_excess": (0, None)}
+    fp0 = SL.table_fingerprint(classes=False)
+    guard = SL.StateGuard().__enter__()
     orc_seen = 0
     with SL.KeyOracle() as ko:
         n_hangs = 0
@@ -470,6 +595,19 @@ def _run(run):
             if res[0] == 0 and not closed_over(value, classes):
                 run.oracle_violation("result-not-closed", dict(case, value_type=type(value).__name__,
                                                                   value=lib.jsonable(SL.to_wire(value))[:6]), site)
+            # python-level operations (load independent): a small multiple of the input size
+            ops, exceeded, _ = ops_of(data, reg, OPS_PER_BYTE * n + OPS_CONST)
+            if exceeded:
+                run.oracle_violation("too-many-operations", dict(case, operations=">%d" % (OPS_PER_BYTE * n + OPS_CONST),
+                                                                 bound="%d*len+%d" % (OPS_PER_BYTE, OPS_CONST)), site)
+            elif n >= 16 and ops / n > maxima["ops_per_byte"][0]:
+                maxima["ops_per_byte"] = (ops / n, (fam, n))
+            if not exceeded and ops - 8 * n > maxima["ops_excess"][0]:
+                maxima["ops_excess"] = (ops - 8 * n, (fam, n))
+            # decoding is a function of the bytes: nothing process-wide (type tables, counters, class attributes) changed
+            if SL.table_fingerprint(classes=False) != fp0:
+                run.oracle_violation("process-state-changed", dict(case, changed=guard.diff()[:6]), site)
+                guard.restore()
             if dt > 0.5 + 2e-5 * n:
                 # a garbage collection of the harness's own millions of objects can land in one measurement: repeat it
                 for _ in range(3):
@@ -487,6 +625,17 @@ def _run(run):
             if res[0] == 1 or st.tell() != n or fam not in ("valid",):
                 run.nt((fam, frames, data))
             orc_seen += 1
+
+    lap('main-loop')
+    d = guard.diff()
+    if d:
+        run.oracle_violation("process-state-changed", {"family": "all inputs of the main loop", "changed": d[:6]},
+                             "serializable.py:deserialize_value")
+        guard.restore()
+    run.notes.append("MEASURED (not proved): python-level operations per input byte (inputs >= 16 B): max %.1f at %s; "
+                     "max operations - 8*|bs| = %d at %s (allowed %d*|bs| + %d)"
+                     % (maxima["ops_per_byte"][0], maxima["ops_per_byte"][1], maxima["ops_excess"][0], maxima["ops_excess"][1],
+                        OPS_PER_BYTE, OPS_CONST))
 
     # ---- model
     mres = M.call_many("ser_dec_log", model_args)
@@ -509,6 +658,7 @@ def _run(run):
         run.sample(lib.jsonable({"family": c[0], "frames": c[1], "len": len(c[2]), "bytes": c[2][:40],
                                  "outcome": a[0] if a[0][0] == 1 else "ok", "value_decodes": a[1], "reads": len(a[2])}))
 
+    lap('model')
     # ---- class nesting beyond the C-recursion limit with a raised recursion limit: oracle only
     for frames, data in cdeep:
         res, exc, st = decode_limited(frames, data, reg)
@@ -551,6 +701,7 @@ def _run(run):
                      % (maxima["time_abs"], maxima["time_per_byte"], len(sample), worst_abs, worst[0], worst[1],
                         ALLOC_PER_BYTE, worst_excess[0], worst_excess[1], ALLOC_CONST))
 
+    lap('alloc')
     # ---- measurement of scaling: the same shape at n and 4n elements must not cost much more than 4x the time
     def hdr(tag, n):
         return struct.pack(">H", tag) + struct.pack(">Hl", 5, n)
@@ -567,6 +718,40 @@ def _run(run):
         "nest-seq-truncated": lambda n: b"\x00\x10\x00\x03\x01" * (n // 16),
     }
 
+    ops_bad = container_cost(run, reg)
+    lap('container-cost')
+    persist_hostile(run)
+    lap('persist-hostile')
+    # containers whose elements / keys are class instances, enum members, strings, bytes, floats, containers: the same
+    # wall-clock criterion (skipped for a shape whose operation count already violated the clause: it would only be slow)
+    HC = {name: mk for name, _, mk in hostile_containers()}
+    guarded_shapes = set()
+    timed_names = ("set/obj-point", "map-key/obj-point", "set/obj-challenge", "set/enum-any-int", "map-key/enum-any-int", "set/enum-str",
+                   "set/str", "map-key/str", "set/bytes", "set/float64", "seq/seq", "map-value/obj-mix", "obj-field-set/obj-low")
+    if not T:
+        timed_names = ("set/obj-point", "map-key/obj-challenge", "set/enum-any-int", "map-key/str", "set/bytes", "seq/seq")
+    for name in timed_names:
+        if name in ops_bad:
+            run.notes.append("scaling shape %s not timed: its operation count is already reported" % name)
+            continue
+        shapes["container:" + name] = HC[name]
+        guarded_shapes.add("container:" + name)
+
+    def timed(data):
+        """one decode under the watchdog -> seconds, or None when it had to be stopped"""
+        signal.setitimer(signal.ITIMER_REAL, WALL_LIMIT)
+        t1 = time.perf_counter()
+        try:
+            try:
+                decode_limited(12000, data, reg)
+            except Hang:
+                return None
+            except BaseException:      # noqa
+                pass
+        finally:
+            signal.setitimer(signal.ITIMER_REAL, 0)
+        return time.perf_counter() - t1
+
     def best(data):
         b = None
         for _ in range(5):
@@ -581,6 +766,14 @@ def _run(run):
     scal = []
     for name, mk in shapes.items():
         n = 4096
+        if name in guarded_shapes:
+            n = 4096 if T else 1024       # (their cost at the cap of 16384 elements is taken by operation count in container_cost)
+            # first one watched run of the large input: a decode that has to be stopped needs no repetition
+            first = timed(mk(4 * n))
+            if first is None:
+                run.oracle_violation("hang", {"family": "scaling-" + name, "n": 4 * n, "len": len(mk(4 * n)), "bytes": mk(4 * n)[:600]},
+                                     "serializable.py:deserialize_value")
+                continue
         t1, t4 = best(mk(n)), best(mk(4 * n))
         scal.append("%s %.1fx" % (name, t4 / max(t1, 1e-9)))
         run.count("scaling_shapes")
@@ -595,12 +788,203 @@ def _run(run):
         if confirmed:
             run.oracle_violation("superlinear-time", {"family": "scaling-" + name, "n": n, "t_n": round(t1, 5), "t_4n": round(t4, 5)},
                                  "serializable.py:deserialize_value")
-    run.notes.append("MEASURED (not proved): time(4n)/time(n) per shape, n = 4096 elements: " + ", ".join(scal))
+    run.notes.append("MEASURED (not proved): time(4n)/time(n) per shape, n = 4096 elements (container:* shapes: %d): " % (4096 if T else 1024) + ", ".join(scal))
 
+    lap('scaling')
     # ---- the two handshake receivers of the server
-    hs_run(run, hello, shello)
+    with SL.StateGuard() as g:
+        hs_run(run, hello, shello)
+        d = g.diff()
+        if d:
+            run.oracle_violation("process-state-changed", {"family": "hs-receivers (all inputs)", "changed": d[:6]}, "connection.py:_recvClientHello/_recvChallengeResponse")
+    lap("handshake")
     SL.registry_unit(run, 400 if run.thorough() else 80)
     run.rules.append(RULE)
+
+
+# ------------------------------------------------------------------ cost of hostile containers, by operation count
+def container_cost(run, reg):
+    """every container kind x every element kind at n, 4n and (seven hash containers of class instances / enum members / strings;
+    all shapes in the thorough tier) at the cap of 16384 elements: the number of python-level operations
+    (serlib.count_ops: deterministic, independent of the machine's load) is at most OPS_PER_BYTE*|bs| + OPS_CONST and grows
+    by at most OPS_SCALE when the element count grows 4x.  -> names of the shapes that violated it"""
+    T = run.thorough()
+    site = "serializable.py:deserialize_value"
+    bad = set()
+    reported = [0]
+
+    def violation(what, case):
+        # (one seeded change typically breaks dozens of shapes at once: the first few are reported, all are counted)
+        reported[0] += 1
+        run.count("container_cost_violations")
+        if reported[0] <= 8:
+            run.oracle_violation(what, case, site)
+    n1 = 64
+    worst = (0.0, None)
+    worst_pb = (0.0, None)
+    for name, hashable, mk in hostile_containers():
+        d1, d4 = mk(n1), mk(4 * n1)
+        o1, x1, _ = ops_of(d1, reg, OPS_PER_BYTE * len(d1) + OPS_CONST)
+        o4, x4, _ = ops_of(d4, reg, OPS_PER_BYTE * len(d4) + OPS_CONST)
+        run.count("container_cost_shapes")
+        run.evaluations += 2
+        run.nt(("container-cost", name))
+        if x1 or x4:
+            d, n = (d1, n1) if x1 else (d4, 4 * n1)
+            violation("too-many-operations", {"family": "container-cost", "shape": name, "n": n, "len": len(d),
+                                                         "operations": ">%d" % (OPS_PER_BYTE * len(d) + OPS_CONST),
+                                                         "bound": "%d*len+%d" % (OPS_PER_BYTE, OPS_CONST), "bytes": d[:4000]})
+            bad.add(name)
+            continue
+        if o4 > OPS_SCALE * o1 + OPS_CONST:
+            violation("superlinear-operations", {"family": "container-cost", "shape": name, "n": n1, "ops_n": o1, "ops_4n": o4,
+                                                            "len": len(d4), "bytes": d4[:8000]})
+            bad.add(name)
+            continue
+        worst = max(worst, (o4 / max(o1, 1), name))
+        worst_pb = max(worst_pb, (o4 / len(d4), name))
+        cont, el = name.split("/")
+        at_cap = T or name in ("set/obj-point", "map-key/obj-challenge", "set/enum-any-int", "map-key/enum-str", "set/str",
+                               "obj-field-set/obj-low", "map-key/obj-point-one-field-differs")
+        if at_cap:
+            big = mk(SL.MAXA)
+            ob, xb, _ = ops_of(big, reg, OPS_PER_BYTE * len(big) + OPS_CONST)
+            run.count("container_cost_at_cap")
+            if xb:
+                violation("too-many-operations", {"family": "container-cost", "shape": name, "n": SL.MAXA, "len": len(big),
+                                                             "operations": ">%d" % (OPS_PER_BYTE * len(big) + OPS_CONST),
+                                                             "bound": "%d*len+%d" % (OPS_PER_BYTE, OPS_CONST), "bytes": big[:600]})
+                bad.add(name)
+            else:
+                worst_pb = max(worst_pb, (ob / len(big), name))
+    run.notes.append("MEASURED (not proved): hostile containers, python-level operations: worst ops(4n)/ops(n) = %.2f at %s "
+                     "(allowed %.1f); worst operations per byte = %.1f at %s (allowed %d)"
+                     % (worst[0], worst[1], OPS_SCALE, worst_pb[0], worst_pb[1], OPS_PER_BYTE))
+    return bad
+
+
+# ------------------------------------------------------------------ hostile persistent streams (Serializable.load_persistant)
+def persist_blob(v, mapping):
+    """the stream store_persistant writes in a process whose classes carry the ids of `mapping`"""
+    with SL.IdAssignment(mapping):
+        st = io.BytesIO()
+        v.store_persistant(st)
+    return st.getvalue()
+
+
+def persist_hostile(run):
+    """load_persistant decodes a stream that brings its own id -> class-name table; the table is attacker controlled like
+    everything else in the stream.  Same clauses as for loadb: terminates, documented exception kinds, a result made of
+    base types and registered classes, operations bounded by the input size — and the process's own tables untouched."""
+    r = run.rng
+    T = run.thorough()
+    site = "serializable.py:Serializable.load_persistant"
+    greg = dict(S.SerializableType.registry)
+    gclasses = set(greg.values())
+    H = struct.pack
+    PID = SL.VfPoint.type_id
+
+    def val(x):
+        st = io.BytesIO()
+        S.serialize_value(st, x)
+        return st.getvalue()
+    objs = []
+    o = SL.VfBag()
+    o.pt = SL.VfPoint()
+    o.anyv = [SL.VfLow(), SL.VfColor(2), {SL.VfName("bee"): SL.VfPoint()}, SL.CHAL()]
+    objs.append(o)
+    for _ in range(40 if T else 6):
+        objs.append(SL.gen_obj(r, 2))
+    blobs = []
+    for v in objs:
+        for _ in range(3):
+            kind, mapping = SL.gen_id_assignment(r, sorted(SL.ids_in(v)))
+            try:
+                blobs.append(persist_blob(v, mapping))
+            except Exception:       # noqa  (a generated object may hold a value outside the encoder's domain)
+                pass
+    cases = [("persist-valid", b) for b in blobs]
+    b0 = blobs[0]
+    cases += [("persist-trunc", b0[:k]) for k in (range(len(b0)) if T else list(range(0, len(b0), 3)) + list(range(len(b0) - 80, len(b0))))]
+    pos = range(len(b0)) if T else sorted(set([0, 1, 2, 3, 4, 5, 6, 7, 8, 9, 10] + [r.randrange(len(b0)) for _ in range(120)] + list(range(len(b0) - 60, len(b0)))))
+    cases += [("persist-flip", f) for f in flips(b0, pos)]
+    # crafted tables: count x id x name, followed by a body that uses the id
+    names = ["VfPoint", "VfColor", "VfHigh", "HandshakeClientChallengeResponseMessage", "HandshakeClientHelloMessage", "PacketType"]
+    body_for = lambda tid: H(">H", tid & 0xFFFF) + b"\x00\x03\x01\x00\x03\x05"
+    counts = [val(n) for n in (0, 1, 2, 3, 127, 128, 2 ** 14, 2 ** 14 + 1, 2 ** 20 + 1, 2 ** 31, 2 ** 63 - 1, -1, -2 ** 63)] + \
+        [b"\x00\x01\x01", b"\x00\x0f", H(">Hf", 11, 2.0), val("2"), val(b"\x02"), b"\x00\x10\x00\x03\x00", b"\x00\x08\x02", b""]
+    ids = [val(n) for n in (128, PID, 200, 65535, 65536, 0, 3, 13, 15, 16, 18, -1, 2 ** 40)] + \
+        [b"\x00\x01\x01", H(">Hd", 12, float(PID)), val(str(PID)), b"\x00\x0f", b"\x00\x10\x00\x03\x00", val(b"ab"),
+         H(">H", SL.VfColor.type_id) + b"\x00\x03\x01", SL.VfPoint().dumpb()]
+    nms = [val(n) for n in names] + [val("NoSuchClass"), val(""), val("x" * 300), val(7), b"\x00\x0f", b"\x00\x10\x00\x03\x00",
+                                     val(b"VfPoint"), H(">H", SL.VfName.type_id) + val("VfPoint"), b"\x00\x0d\x00\x03\x05Vf"]
+    for c in counts:
+        for i in (ids if T else ids[:4] + r.sample(ids[4:], 5)):
+            for nm in (nms if T else nms[:3] + r.sample(nms[3:], 4)):
+                cases.append(("persist-crafted", c + (i + nm) * 2 + body_for(PID)))
+    for i in ids:
+        for nm in nms:
+            cases.append(("persist-crafted", val(1) + i + nm + body_for(PID)))
+            cases.append(("persist-crafted", val(2) + val(PID) + val("VfPoint") + i + nm + body_for(PID)))
+    # the same id under two names, one name under many ids, a long table, a table naming every class under one id
+    allnames = [c.__name__ for c in greg.values()]
+    cases.append(("persist-crafted", val(2) + val(PID) + val("VfPoint") + val(PID) + val("VfColor") + body_for(PID)))
+    cases.append(("persist-crafted", val(300) + b"".join(val(1000 + k) + val("VfPoint") for k in range(300)) + body_for(1299)))
+    cases.append(("persist-crafted", val(len(allnames)) + b"".join(val(PID) + val(nm) for nm in allnames) + body_for(PID)))
+    cases.append(("persist-crafted", val(2 ** 14) + b"".join(val(128 + k) + val("VfPoint") for k in range(2 ** 14)) + body_for(130)))
+    for _ in range(20000 if T else 1500):
+        n = r.choice([0, 1, 2, 3, 5, 8, 12, 20, 40, 100, 300])
+        cases.append(("persist-random", biased_random(r, n) if r.random() < 0.8 else bytes(r.getrandbits(8) for _ in range(n))))
+    fp0 = SL.table_fingerprint()
+    hangs = 0
+    maxops = (0.0, None)
+    with SL.StateGuard() as guard, SL.KeyOracle() as ko:
+        for fam, data in cases:
+            if hangs >= 3:
+                break
+            run.count(fam)
+            run.evaluations += 1
+            ko.table.clear()
+            n = len(data)
+            case = {"family": fam, "len": n, "bytes": data[:2000]}
+            signal.setitimer(signal.ITIMER_REAL, WALL_LIMIT)
+            exc, value = None, None
+            try:
+                try:
+                    value = S.Serializable.load_persistant(data)
+                except Exception as e:      # noqa
+                    exc = e
+            except Hang:
+                run.oracle_violation("hang", case, site)
+                hangs += 1
+                guard.restore()
+                continue
+            finally:
+                signal.setitimer(signal.ITIMER_REAL, 0)
+            code = SL.exc_code(exc) if exc is not None else None
+            pk_codes = set(c for _, c in ko.wire() if c != 0)
+            if exc is not None and code not in DOCUMENTED and code not in pk_codes:
+                run.oracle_violation("undocumented-exception", dict(case, exception=type(exc).__name__, code=code), site)
+            if exc is None and not closed_over(value, gclasses):
+                run.oracle_violation("result-not-closed", dict(case, value_type=type(value).__name__), site)
+            if SL.table_fingerprint() != fp0:
+                run.oracle_violation("process-state-changed", dict(case, changed=guard.diff()[:6]), site)
+                guard.restore()
+            ops, exceeded, _ = SL.count_ops(lambda: S.Serializable.load_persistant(data), OPS_PER_BYTE * n + OPS_CONST)
+            if exceeded:
+                run.oracle_violation("too-many-operations", dict(case, operations=">%d" % (OPS_PER_BYTE * n + OPS_CONST),
+                                                                 bound="%d*len+%d" % (OPS_PER_BYTE, OPS_CONST)), site)
+            elif n >= 16:
+                maxops = max(maxops, (ops / n, fam))
+            if SL.table_fingerprint() != fp0:
+                guard.restore()
+            run.count("persist_ok" if exc is None else "persist_err_%d" % code)
+            run.nt(("persist", data))
+        d = guard.diff()
+        if d:
+            run.oracle_violation("process-state-changed", {"family": "persist (all inputs)", "changed": d[:6]}, site)
+    run.notes.append("MEASURED (not proved): load_persistant, python-level operations per input byte (inputs >= 16 B): max %.1f at %s"
+                     % (maxops[0], maxops[1]))
 
 
 # ------------------------------------------------------------------ handshake receivers
@@ -682,6 +1066,27 @@ def hs_run(run, hello, shello):
     for d in (10, 300, 440, 447, 448, 449, 450, 700):
         hcases.append(enum_tid * d + b"\x00\x03\x01")
 
+    # datagram-sized containers of class instances / enum members / strings where the hello is expected
+    HC = {name: mk for name, _, mk in hostile_containers()}
+    for name in ("set/obj-challenge", "map-key/obj-point", "set/enum-any-int", "map-key/enum-str", "set/str", "seq/obj-mix",
+                 "obj-field-set/obj-low", "set/obj-equal-fields"):
+        n = 8
+        while len(HC[name](n + 1)) <= 1380:
+            n += 1
+        hcases.append(HC[name](n))
+    hs_containers = hcases[-8:]
+    hs_ops = [0, None]
+
+    def ops_clause(fn, fam, data, site):
+        """python-level operations of one receiver call: a small multiple of the datagram size"""
+        lim = OPS_PER_BYTE * len(data) + HS_OPS_CONST
+        ops, exceeded, _ = SL.count_ops(lambda: fn(data), lim)
+        if exceeded:
+            run.oracle_violation("too-many-operations", {"family": fam, "len": len(data), "bytes": data[:2000], "operations": ">%d" % lim,
+                                                         "bound": "%d*len+%d" % (OPS_PER_BYTE, HS_OPS_CONST)}, site)
+        elif ops - 8 * len(data) > hs_ops[0]:
+            hs_ops[0], hs_ops[1] = ops - 8 * len(data), (fam, len(data))
+
     impl, args = [], []
     with SL.KeyOracle() as ko:
         for data in hcases:
@@ -701,6 +1106,7 @@ def hs_run(run, hello, shello):
                                          "connection.py:_recvClientHello")
             impl.append(out)
             args.append([gregw, ko.wire(), FR, 1, data])
+            ops_clause(conn._recvClientHello, "hs-hello", data, "connection.py:_recvClientHello")
             run.count("hs_hello_%s" % ("accept" if out[0] == 0 else "ignore" if out[0] == 2 else "raise_%d" % out[1]))
             run.nt(("hs-hello", data))
     mres = [m[:1] if m[0] == 0 else m for m in M.call_many("hs_hello", args)]
@@ -719,6 +1125,7 @@ def hs_run(run, hello, shello):
     for cls in SL.OBJS:
         ccases.append(cls().dumpb())
     ccases += [biased_random(r, r.choice([2, 3, 5, 9, 30])) for _ in range(2000 if T else 300)]
+    ccases += hs_containers
     impl, args = [], []
     with SL.KeyOracle() as ko:
         for data in ccases:
@@ -738,10 +1145,14 @@ def hs_run(run, hello, shello):
                                          "connection.py:_recvChallengeResponse")
             impl.append(out)
             args.append([gregw, ko.wire(), FR, tokw, EXPECT, data])
+            conn.status = CN.ConnectionStatus.CONNECTING
+            ops_clause(conn._recvChallengeResponse, "hs-challenge", data, "connection.py:_recvChallengeResponse")
             run.count("hs_chal_%s" % ("accept" if out[0] == 0 else "ignore" if out[0] == 2 else "raise_%d" % out[1]))
             run.nt(("hs-chal", data))
     mres = [m[:1] if m[0] == 0 else m for m in M.call_many("hs_challenge", args)]
     run.compare("hs_challenge", ccases, impl, mres, describe=lambda c: lib.jsonable({"bytes": c[:300], "len": len(c)}))
+    run.notes.append("MEASURED (not proved): handshake receivers, python-level operations - 8*|datagram|: max %d at %s (allowed %d*|datagram| + %d)"
+                     % (hs_ops[0], hs_ops[1], OPS_PER_BYTE, HS_OPS_CONST))
     for name, data in _HANGS[:3]:
         run.oracle_violation("hang", {"family": "hs-receiver", "receiver": name, "bytes": data[:300], "len": len(data)},
                              "connection.py:" + name)
@@ -770,7 +1181,10 @@ def replay(run, data):
     dt = time.time() - t0
     _, peak = tracemalloc.get_traced_memory()
     tracemalloc.stop()
-    bad = peak > ALLOC_CONST + ALLOC_PER_BYTE * len(bs) or dt > WALL_LIMIT
+    allowed_ops = OPS_PER_BYTE * len(bs) + OPS_CONST
+    ops, exceeded, _ = SL.count_ops(lambda: S.deserialize_value(io.BytesIO(bs)), allowed_ops)
+    bad = peak > ALLOC_CONST + ALLOC_PER_BYTE * len(bs) or dt > WALL_LIMIT or exceeded
     print(json.dumps({"recorded": f.get("what"), "len": len(bs), "outcome": out, "seconds": round(dt, 4),
-                      "tracemalloc_peak": peak, "allowed_peak": ALLOC_CONST + ALLOC_PER_BYTE * len(bs), "violates": bad}))
+                      "tracemalloc_peak": peak, "allowed_peak": ALLOC_CONST + ALLOC_PER_BYTE * len(bs),
+                      "operations": (">%d" % allowed_ops) if exceeded else ops, "allowed_operations": allowed_ops, "violates": bad}))
     return 1 if bad else 0
